@@ -10,7 +10,7 @@ def seq_batches(w, tier, plan, name="seq"):
     """plan: list of (mode, family, maxn, instances_quick, instances_thorough, extra args)"""
     thorough = tier == "thorough"
     out = []
-    nb = 1 if not thorough else 6
+    nb = 1 if not thorough else 10
     for b in range(nb):
         for i, (mode, fam, maxn, nq, nt, extra) in enumerate(plan):
             tr = os.path.join(w, f"{name}_{mode}_{fam}_{maxn}_{b}.ndjson")
@@ -125,7 +125,7 @@ def simple_seq_check(pid, plan, rule_extra=""):
 
 
 MC_PAR_Q = ["MC_ParBnB_w2_t1_detTRUE.cfg", "MC_ParBnB_w3_t1_detTRUE.cfg", "MC_ParBnB_w2_t2_detFALSE.cfg", "MC_ParBnB_w2_t3_detFALSE.cfg"]
-MC_PAR_T = MC_PAR_Q + ["MC_ParBnB_w2_t1_detFALSE.cfg"]
+MC_PAR_T = MC_PAR_Q + ["MC_ParBnB_w2_t1_detFALSE.cfg", "MC_ParBnB_w3_t2_detFALSE.cfg"]
 MC_SEQ = ["MC_SeqBnB_t1.cfg", "MC_SeqBnB_t2.cfg", "MC_SeqBnB_t3.cfg"]
 MC_FOR = {"C01": ("seq",), "C14": ("seq",), "C19": ("seq",), "C05": ("seq", "par"), "C02": ("seq", "par"), "C03": ("par",), "C04": ("par",)}
 
@@ -316,7 +316,7 @@ def par_part(chk, w, tier, modes):
     """modes: list of (mode, family, maxn, instances_q, instances_t, per_instance, threads)"""
     thorough = tier == "thorough"
     batches = []
-    for b in range(1 if not thorough else 4):
+    for b in range(1 if not thorough else 6):
         for i, mm in enumerate(modes):
             (mode, fam, maxn, nq, nt, per, threads), xtra = mm[:7], list(mm[7:])
             tr = os.path.join(w, f"par_{mode}_{fam}_{maxn}_{b}_{i}.ndjson")
